@@ -301,6 +301,18 @@ example : (serve toyCfg false true [] [] [] [.fl, .wh 404]).obs.status = 200 ∧
 -- the pool: two handlers interleaved; the second Get reuses the writer the first one put back
 example : (prun {} [.get 1 0, .get 2 0, .put 1, .get 3 0, .put 2]).held = [(3, 0)] ∧
           (prun {} [.get 1 0, .get 2 0, .put 1, .get 3 0, .put 2]).pool = [1] := by decide
+-- weights as strconv.ParseFloat reads them: zero mantissas in every spelling, underflow to zero at 2^-1075 (ties to
+-- even), hexadecimal forms, underscores; malformed text, inf/nan and overflows are not "zero"
+set_option exponentiation.threshold 4000 in
+set_option maxRecDepth 100000 in
+example : ["0", "0.000", ".0", "-0", "0e5", "0E-0", "1e-400", "2e-324", "24703282292062327208e-343", "0x0p0",
+           "0x1p-1075", "0x1.0p-1075", "0_0", "0x_0p0"].all (fun q => zeroLit q.toList) = true := by decide
+set_option exponentiation.threshold 4000 in
+set_option maxRecDepth 100000 in
+example : ["1", "0.001", "3e-324", "24703282292062327209e-343", "0x1p-1074", "0x1.8p-1075", "", "q", "0.0.0", "0e",
+           "0x0", "inf", "nan", "1e400", "0_", "_0", "0_x0p0"].all (fun q => !zeroLit q.toList) = true := by decide
+example : acceptsGzip [("Accept-Encoding", ["gzip;q=0e0"])] = false ∧ acceptsGzip [("Accept-Encoding", ["gzip;q=0.0.0"])] = true ∧
+          acceptsGzip [("Accept-Encoding", ["gzip;q"])] = true := by decide
 -- decided_once has inhabitants of its hypotheses
 example : (GW.writeHeader toyCfg { dec := .undecided, hdr := [("Content-Type", ["text/html"])], down := {}, pool := [] } 200).down.status = some 200 := by decide
 
